@@ -38,8 +38,55 @@ Definition exec_leaf (w : world) (sender : string) (m : cmsg) : outcome :=
   | MWasm _ _ _ => (Err "not a leaf", w_fault w)
   end.
 
+(* ---------- typing of message payloads ----------
+   In the implementation every amount is a Uint128, every share a Decimal (u128 atomics), epochs/durations/amp are
+   u64, limits u32, decimals u8: values outside these ranges cannot be constructed. The model's Z-typed messages
+   are therefore guarded by the same ranges (an ill-typed message is rejected before any handler runs). *)
+Definition u128_ok (z : Z) : bool := in_range U128_MAX z.
+Definition u64_ok (z : Z) : bool := in_range U64_MAX z.
+Definition u32_ok (z : Z) : bool := in_range U32_MAX z.
+Definition u8_ok (z : Z) : bool := in_range U8_MAX z.
+Definition coin_ok (c : coin) : bool := u128_ok (amount_of c).
+Definition coins_ok (l : list coin) : bool := forallb coin_ok l.
+Definition opt_ok {A} (f : A -> bool) (o : option A) : bool := match o with Some a => f a | None => true end.
+Definition fee_ok (f : pool_fee) : bool :=
+  u128_ok (protocol_fee f) && u128_ok (swap_fee f) && u128_ok (burn_fee f) && forallb u128_ok (extra_fees f).
+Definition expiration_ok (e : expiration) : bool :=
+  match e with AtHeight h => u64_ok h | AtTime t => u64_ok t | Never => true end.
+Definition action_ok (a : own_action) : bool :=
+  match a with Transfer _ e => opt_ok expiration_ok e | _ => true end.
+Definition farm_params_ok (p : farm_params) : bool :=
+  opt_ok u64_ok (fp_start p) && opt_ok u64_ok (fp_end p) && coin_ok (fp_asset p).
+Definition wmsg_ok (m : wmsg) : bool :=
+  match m with
+  | WEm (EmUpdateConfig c) => opt_ok (fun c => u64_ok (duration c) && u64_ok (genesis c)) c
+  | WEm (EmUpdateOwnership a) => action_ok a
+  | WFc a => action_ok a
+  | WPm (PmCreatePool _ decimals fees pt _) =>
+      forallb u8_ok decimals && fee_ok fees && match pt with StableSwap amp => u64_ok amp | ConstantProduct => true end
+  | WPm (PmProvide ls ss _ _ u _) => opt_ok u128_ok ls && opt_ok u128_ok ss && opt_ok u64_ok u
+  | WPm (PmSwap _ bp ms _ _) => opt_ok u128_ok bp && opt_ok u128_ok ms
+  | WPm (PmWithdraw _) => true
+  | WPm (PmOwnership a) => action_ok a
+  | WPm (PmRoute _ mr _ ms) => opt_ok u128_ok mr && opt_ok u128_ok ms
+  | WPm (PmUpdateConfig _ _ fee _) => opt_ok coin_ok fee
+  | WFm (FmCreateFarm p) => farm_params_ok p
+  | WFm (FmExpandFarm p) => farm_params_ok p
+  | WFm (FmCloseFarm _) => true
+  | WFm (FmOwnership a) => action_ok a
+  | WFm (FmClaim u) => opt_ok u64_ok u
+  | WFm (FmPosCreate _ dur _) => u64_ok dur
+  | WFm (FmPosExpand _) => true
+  | WFm (FmPosClose _ lp) => opt_ok coin_ok lp
+  | WFm (FmPosWithdraw _ _) => true
+  | WFm (FmUpdateConfig u) =>
+      opt_ok coin_ok (u_create_fee u) && opt_ok u32_ok (u_max_farms u) && opt_ok u32_ok (u_epoch_buffer u) &&
+      opt_ok u64_ok (u_min_unlock u) && opt_ok u64_ok (u_max_unlock u) && opt_ok u64_ok (u_expiration u) &&
+      opt_ok u128_ok (u_penalty u)
+  end.
+
 (* contract handlers: new world + sub-messages *)
-Definition handle (w : world) (target sender : string) (funds : list coin) (m : wmsg) : res (world * list submsg) :=
+Definition handle_typed (w : world) (target sender : string) (funds : list coin) (m : wmsg) : res (world * list submsg) :=
   if String.eqb target EM then
     match m with
     | WEm em =>
@@ -66,6 +113,9 @@ Definition handle (w : world) (target sender : string) (funds : list coin) (m : 
     | _ => Err "unknown message for this contract"
     end
   else Err "no such contract".
+
+Definition handle (w : world) (target sender : string) (funds : list coin) (m : wmsg) : res (world * list submsg) :=
+  if coins_ok funds && wmsg_ok m then handle_typed w target sender funds m else Err "ill-typed message".
 
 Definition handle_reply (w : world) (contract : string) (id : Z) : res (world * list submsg) :=
   if String.eqb contract PM then let* (s, subs) := pm_reply w id in Ok (set_pm w s, subs)
